@@ -202,7 +202,7 @@ class P:
             self.eat(";")
             return ("assign", e, op, rhs)
         # block-like expression used as a statement (if / match) or tail expression
-        if e[0] in ("if", "match") and not self.at("}"):
+        if e[0] in ("if", "match", "iflet") and not self.at("}"):
             return ("semi", e)
         return ("tail", e)
 
@@ -223,7 +223,7 @@ class P:
 
     def expr(self, prec=0, nostruct=False, stmt=False):
         lhs = self.unary(nostruct)
-        if stmt and lhs[0] in ("if", "match"):
+        if stmt and lhs[0] in ("if", "match", "iflet"):
             # `if … {}` at statement position is not continued by a binary operator
             return lhs
         while True:
@@ -338,7 +338,25 @@ class P:
         if v == "if":
             self.eat()
             if self.at("let"):
-                raise Untranslatable("`if let`")
+                # if let Some(p) = e { … } [else { … }]   (also Ok / Err on a search result)
+                self.eat()
+                ctor = self.eat()[1]
+                if ctor not in ("Some", "Ok", "Err"):
+                    raise Untranslatable(f"`if let {ctor}`")
+                self.eat("(")
+                ip = self.pat()
+                self.eat(")")
+                self.eat("=")
+                scrut = self.expr(nostruct=True)
+                th = self.block()
+                el = None
+                if self.at("else"):
+                    self.eat()
+                    if self.at("if"):
+                        el = [("tail", self.primary(nostruct))]
+                    else:
+                        el = self.block()
+                return ("iflet", ctor, ip, scrut, th, el)
             c = self.expr(nostruct=True)
             th = self.block()
             el = None
@@ -580,6 +598,8 @@ def lean_ty(t):
         return " × ".join(f"({lean_ty(x)})" if isinstance(x, tuple) else lean_ty(x) for x in t[1])
     if isinstance(t, tuple) and t[0] == "st":
         return t[1]
+    if t == "SEARCH":
+        return "SearchRes"
     if t == "SET":
         return "List Nat"
     if isinstance(t, tuple) and t[0] == "fn":
@@ -727,6 +747,8 @@ class Lower:
             return self.struct(e, env)
         if k == "if":
             return self.if_expr(e, env, want)
+        if k == "iflet":
+            return self.iflet_expr(e, env, want)
         if k == "match":
             return self.match_expr(e, env, want)
         if k == "blockexpr":
@@ -894,6 +916,16 @@ class Lower:
                 return f"({s}.foldl {f} {i0})", it0
             if m == "windows" and len(args) == 1 and args[0] == ("num", "2"):
                 return f"(windows2 {s})", ("list", ("list", et))
+            if m == "binary_search_by" and len(args) == 1 and et == "S" and args[0][0] == "closure" and len(args[0][1]) == 1:
+                # xs.binary_search_by(|a| a.partial_cmp(&x).unwrap()): position of x in the ascending list
+                cl = args[0]
+                body = cl[2]
+                pname = cl[1][0][1] if cl[1][0][0] == "pid" else None
+                if body[0] == "mcall" and body[2] == "unwrap" and body[1][0] == "mcall" and body[1][2] == "partial_cmp" \
+                        and body[1][1] == ("path", [pname]) and len(body[1][3]) == 1:
+                    x, tx = self.ex(body[1][3][0], env, "S")
+                    return f"(binarySearch {s} {x})", "SEARCH"
+                raise Untranslatable("binary_search_by with another comparator")
             if m == "contains" and len(args) == 1 and et == "N":
                 a, ta = self.ex(args[0], env, "N")
                 return f"({s}.contains {a})", "B"
@@ -1014,8 +1046,52 @@ class Lower:
         t = tt if tt != ("opt", "?") else te
         return f"(if {c} then {th} else {el})", t
 
+    def ctor_arm(self, ctor, t):
+        """(lean constructor, type of its payload) for a pattern `Some(p)` / `Ok(p)` / `Err(p)` against type t"""
+        if isinstance(t, tuple) and t[0] == "opt" and ctor == "Some":
+            return "some", t[1]
+        if t == "SEARCH" and ctor == "Ok":
+            return "SearchRes.found", "N"
+        if t == "SEARCH" and ctor == "Err":
+            return "SearchRes.insert", "N"
+        raise Untranslatable(f"pattern {ctor}(..) against {t}")
+
+    def iflet_expr(self, e, env, want):
+        _, ctor, ip, scrut, th, el = e
+        s, t = self.ex(scrut, env)
+        lc, pt = self.ctor_arm(ctor, t)
+        env_t = dict(env)
+        pv = self.bind_pat(ip, pt, env_t)
+        a, ta = self.block(th, env_t, want)
+        if el is None:
+            raise Untranslatable("`if let` expression without else")
+        b, tb = self.block(el, dict(env), want)
+        rt = ta if ta != ("opt", "?") else tb
+        return f"(match {s} with | {lc} {pv} => {a} | _ => {b})", rt
+
     def match_expr(self, e, env, want):
         s, t = self.ex(e[1], env)
+        if t == "SEARCH" or (isinstance(t, tuple) and t[0] == "opt"):
+            arms = []
+            rt = None
+            for (pat, body) in e[2]:
+                m = re.fullmatch(r"(Some|Ok|Err)\((\w+)\)", pat)
+                env_a = dict(env)
+                if m:
+                    lc, pt = self.ctor_arm(m.group(1), t)
+                    pv = self.bind_pat(("pid", m.group(2)), pt, env_a)
+                    lp = f"{lc} {pv}"
+                elif pat == "None":
+                    lp = "none"
+                elif pat == "_":
+                    lp = "_"
+                else:
+                    raise Untranslatable(f"match pattern {pat}")
+                bs, bt = self.ex(body, env_a, want)
+                if rt is None or rt == ("opt", "?"):
+                    rt = bt
+                arms.append(f"| {lp} => {bs}")
+            return f"(match {s} with " + " ".join(arms) + ")", rt
         arms = []
         rt = None
         for (pat, body) in e[2]:
